@@ -1,6 +1,6 @@
 """C06 — configuration of the check (deductive tier under construction)."""
 PROPERTY = "C06"
-LEVEL = "other"
+LEVEL = "exploration"
 CONTRACT_MODULES = ["contracts.specfuns"]
 FUNCTIONS = []
 LEMMAS = []
